@@ -565,10 +565,14 @@ func ruleCapsAndTimeouts(w *World, r *Run, ruleE, ruleF string) {
 					if t == handler && handler != nil {
 						return true
 					}
+					rp := recvParam(fn)
+					// the loop's own receiver, when the loop is a method of the handler
+					if rp != nil && t != nil && (t == rp || (len(t.Args) == 1 && t.Args[0] == rp && (t.Kind == "conv" || t.Kind == "makeiface" || t.Kind == "iface"))) {
+						return true
+					}
 					if t == nil || t.Typ == nil || typeStr(t.Typ) != "http.Handler" {
 						return false
 					}
-					rp := recvParam(fn)
 					return t.Kind == "param" || (t.Kind == "field" && rp != nil && len(t.Args) == 1 && t.Args[0] == rp)
 				}
 				good := h != nil && h.Kind == "call" && h.Name == "net/http.MaxBytesHandler" && given(h.Args[2])
